@@ -20,6 +20,7 @@ ZeroBal == [a \in TraceAll |-> 0]
 NoLock == [a \in TraceAll |-> "none"]
 AllTxKinds == {"call", "create", "sdata", "kquai", "xsend", "inbound"}
 AllOpKinds == {"ETX", "CONVERT", "XCALL", "UNWRAP", "CLAIM"}
+AllFrameKinds == {"call", "delegate", "callcode", "static", "create", "create2"}
 Anything == {}
 
 Trace == ndJsonDeserialize("evmtrace.ndjson")
@@ -48,7 +49,7 @@ ViewEq(a, b) == a.k = b.k /\ a.to = b.to /\ a.val = b.val /\ a.idx = b.idx
 RecConform ==
     /\ SpecRec.a = Ev.a /\ SpecRec.x = Ev.x /\ SpecRec.y = Ev.y
     /\ (Ev.a \in {"txbegin", "etxstage", "txend", "sdata", "kquai"} => SpecRec.res = Ev.res)
-    /\ (Ev.a \in {"top", "call", "create"} => SpecRec.c.enter = Ev.c.enter)
+    /\ (Ev.a \in {"top", "call", "create", "dcall", "ccall", "scall", "create2"} => SpecRec.c.enter = Ev.c.enter)
     /\ (Ev.a \in AllOpKinds =>
            IF SpecRec.last.k = "-" THEN "last" \notin DOMAIN Ev
            ELSE "last" \in DOMAIN Ev /\ ViewEq(SpecRec.last, Ev.last))
@@ -92,6 +93,12 @@ TraceNext ==
     \/ Is("kquai")    /\ Consume(TxKQuaiControl(Ev.c.k, Ev.g))
     \/ Is("call")     /\ Consume(Call(Ev.y, Ev.v))
     \/ Is("create")   /\ Consume(IF Ev.c.enter \/ bal[Cur.self] < Ev.v THEN Create(Ev.v) ELSE Create_NoAddress(Ev.v))
+    \* the other frame kinds.  A state-modifying instruction inside a read-only context arrives as the "fail" of its
+    \* frame (write protection); if the implementation executed it instead, its event is no enabled action here
+    \/ Is("dcall")    /\ Consume(DelegateCall(Ev.y))
+    \/ Is("ccall")    /\ Consume(CallCode(Ev.y, Ev.v))
+    \/ Is("scall")    /\ Consume(StaticCall(Ev.y))
+    \/ Is("create2")  /\ Consume(Create2(Ev.v))
     \/ Is("stop")     /\ Consume(Stop)
     \/ Is("ret")      /\ Consume(ReturnCode)
     \/ Is("revert")   /\ Consume(Revert)
